@@ -6,6 +6,7 @@
 import Spil.Generated.DemoConf
 import Spil.Spec.Sid
 import Spil.Spec.PathWF
+import Spil.Lemmas.PathXL
 
 open Generated
 
@@ -53,6 +54,18 @@ theorem patterns_ok : demoSidPatterns = demoEffectiveTemplates := by decide +ker
     newline-free, distinct keys, distinct non-empty plain labels, same key set ⇒ same key order,
     every level has a type) -/
 theorem demo_wf : Spec.sidHierOk demoEnv demoConf.sid.templates = true := by decide +kernel
+
+/-- the shipped path configurations use neither a typed mapping nor extra keys: the whole-code path
+    model the driver runs (`Spil.Model.PathX`) is, on this configuration, the model the C05 / C06 /
+    C11 theorems are about (`PathXL.sidOfPathX_eq`, `sidPathX_eq`, `pathToDictX_eq`) -/
+theorem demo_paths_plain : PathXL.allPlain demoConf = true := by decide +kernel
+
+/-- … so what the driver answers for `Sid(path=p, config=c)` and `sid.path(c)` under the shipped
+    configuration is what the theorems speak about, for every path, Sid and configuration name -/
+theorem demo_driver_paths (path : Str) (config : Option Str) (x : Sid) :
+    (Ctx.mk demoConf demoEnv).sidOfPathX path config = (Ctx.mk demoConf demoEnv).sidOfPath path config ∧
+    (Ctx.mk demoConf demoEnv).sidPathX config x = (Ctx.mk demoConf demoEnv).sidPath config x :=
+  ⟨PathXL.sidOfPathX_eq _ demo_paths_plain path config, PathXL.sidPathX_eq _ demo_paths_plain config x⟩
 
 /-- the shipped path configurations follow the conventions the deterministic-parse theorems assume
     (per '/'-free stretch at most one free placeholder, prefix-free vocabularies to its left,
